@@ -396,6 +396,12 @@ def to_node(
         table = c.table
         col_source: exp.Table | Scope | None = scope.sources.get(table)
 
+        # A correlated column of a subquery belongs to a source of one of the enclosing scopes
+        outer_scope = scope.parent
+        while col_source is None and outer_scope and scope.is_subquery:
+            col_source = outer_scope.sources.get(table)
+            outer_scope = outer_scope.parent if outer_scope.is_subquery else None
+
         if isinstance(col_source, Scope):
             reference_node_name = None
             if col_source.scope_type == ScopeType.DERIVED_TABLE and table not in source_names:
